@@ -13,6 +13,8 @@ import (
 	"go/constant"
 	"go/token"
 	"go/types"
+
+	"golang.org/x/tools/go/packages"
 	"sort"
 	"strings"
 )
@@ -475,6 +477,42 @@ func (in *Interp) keyedLookup(st *State, e *ast.IndexExpr) ([]lookupRes, bool) {
 	id, ok := stripParens(e.X).(*ast.Ident)
 	if !ok {
 		return nil, false
+	}
+	// an array of functions indexed by a constant type (a dispatch table), written as a literal or filled element
+	// by element in init: one path per entry, and the miss (a nil function) for every other index
+	if fents, ok := in.c.funcArrayTable(in.c.objOf(id)); ok {
+		var out []lookupRes
+		for _, kvs := range in.eval(st, e.Index) {
+			if kvs.v.K == vConst {
+				var v Value = tagV("nil", nil)
+				hit := false
+				for _, en := range fents {
+					if comparable(en.k, kvs.v.C) && constant.Compare(en.k, token.EQL, kvs.v.C) {
+						v, hit = in.literalValue(en.val), true
+					}
+				}
+				out = append(out, lookupRes{kvs.st, v, hit})
+				continue
+			}
+			for _, en := range fents {
+				cl := kvs.st.clone()
+				if in.h.AssumeKey(in, cl, kvs.v, en.k, true) {
+					out = append(out, lookupRes{cl, in.literalValue(en.val), true})
+				}
+			}
+			miss := kvs.st.clone()
+			okMiss := true
+			for _, en := range fents {
+				if !in.h.AssumeKey(in, miss, kvs.v, en.k, false) {
+					okMiss = false
+					break
+				}
+			}
+			if okMiss {
+				out = append(out, lookupRes{miss, tagV("nil", nil), false})
+			}
+		}
+		return out, true
 	}
 	lit := in.c.tableLiteral(in.c.objOf(id))
 	if lit == nil {
@@ -2260,6 +2298,36 @@ func (in *Interp) literalValue(e ast.Expr) Value {
 		}
 	case *ast.FuncLit:
 		return Value{K: vFunc, Lit: x}
+	case *ast.CallExpr:
+		// an entry built by a constructor of the module that only returns a literal of its parameters
+		// (`'=': singleOrDouble(tEQ, '=', tEE)`): the literal with the arguments put in
+		if fn, ok := in.c.callee(x).(*types.Func); ok && fn.Pkg() != nil && fn.Pkg().Path() == bclPath {
+			fd := in.c.funcDecls[fn]
+			if fd != nil && fd.Recv == nil && fd.Body != nil && len(fd.Body.List) == 1 && !x.Ellipsis.IsValid() {
+				if rs, isRet := fd.Body.List[0].(*ast.ReturnStmt); isRet && len(rs.Results) == 1 {
+					if cl, isCL := stripParens(rs.Results[0]).(*ast.CompositeLit); isCL {
+						params := map[types.Object]Value{}
+						k := 0
+						okArgs := true
+						if fd.Type.Params != nil {
+							for _, f := range fd.Type.Params.List {
+								for _, nm := range f.Names {
+									if k >= len(x.Args) {
+										okArgs = false
+										break
+									}
+									params[in.c.objOf(nm)] = in.literalValue(x.Args[k])
+									k++
+								}
+							}
+						}
+						if okArgs && k == len(x.Args) {
+							return in.literalStruct(cl, params)
+						}
+					}
+				}
+			}
+		}
 	case *ast.SelectorExpr:
 		// a method expression (*T).m or a qualified function
 		if f, ok := in.c.objOf(x).(*types.Func); ok {
@@ -2303,4 +2371,159 @@ func (in *Interp) literalValue(e ast.Expr) Value {
 		return list
 	}
 	return Value{K: vUnknown, T: in.c.typeOf(e)}
+}
+
+// literalStruct: the value of a struct literal whose field values are constants or the given parameters.
+func (in *Interp) literalStruct(x *ast.CompositeLit, params map[types.Object]Value) Value {
+	t := in.c.typeOf(x)
+	if t == nil {
+		return Value{K: vUnknown}
+	}
+	stt, isS := t.Underlying().(*types.Struct)
+	if !isS {
+		return Value{K: vUnknown, T: t}
+	}
+	sv := Value{K: vStruct, T: t, Fields: map[string]Value{}}
+	for i, el := range x.Elts {
+		name, ve := "", el
+		if kv, isKV := el.(*ast.KeyValueExpr); isKV {
+			if id, isID := kv.Key.(*ast.Ident); isID {
+				name = id.Name
+			}
+			ve = kv.Value
+		} else if i < stt.NumFields() {
+			name = stt.Field(i).Name()
+		}
+		if name == "" {
+			continue
+		}
+		if id, isID := stripParens(ve).(*ast.Ident); isID {
+			if pv, isP := params[in.c.objOf(id)]; isP {
+				sv.Fields[name] = pv
+				continue
+			}
+		}
+		sv.Fields[name] = in.literalValue(ve)
+	}
+	for i := 0; i < stt.NumFields(); i++ {
+		if _, has := sv.Fields[stt.Field(i).Name()]; !has {
+			sv.Fields[stt.Field(i).Name()] = in.zeroOf(stt.Field(i).Type())
+		}
+	}
+	return sv
+}
+
+type funcTableEntry struct {
+	k   constant.Value
+	val ast.Expr
+}
+
+// funcArrayTable: the entries of a package-level array of functions that is written once — as a literal, or
+// element by element with constant indexes in an init function — and never otherwise.
+func (c *Ctx) funcArrayTable(obj types.Object) ([]funcTableEntry, bool) {
+	v, ok := obj.(*types.Var)
+	if !ok || v.IsField() || v.Pkg() == nil || v.Parent() != v.Pkg().Scope() {
+		return nil, false
+	}
+	arr, ok := v.Type().Underlying().(*types.Array)
+	if !ok {
+		return nil, false
+	}
+	if _, isFn := arr.Elem().Underlying().(*types.Signature); !isFn {
+		return nil, false
+	}
+	if c.memoTab == nil {
+		c.memoTab = map[string]any{}
+	}
+	key := "funcArrayTable/" + v.Name()
+	if m, has := c.memoTab[key]; has {
+		ents, _ := m.([]funcTableEntry)
+		return ents, ents != nil
+	}
+	c.memoTab[key] = nil
+	var ents []funcTableEntry
+	if lit := c.tableLiteral(obj); lit != nil {
+		next := int64(0)
+		for _, el := range lit.Elts {
+			val := el
+			if kv, isKV := el.(*ast.KeyValueExpr); isKV {
+				k := c.constOf(kv.Key)
+				if k == nil {
+					return nil, false
+				}
+				if iv, isI := constant.Int64Val(k); isI {
+					next = iv
+				}
+				val = kv.Value
+			}
+			ents = append(ents, funcTableEntry{constant.MakeInt64(next), val})
+			next++
+		}
+	} else {
+		okAll := true
+		var pkg *packages.Package
+		for _, p := range []*packages.Package{c.Bcl, c.Cmd} {
+			if p != nil && p.Types == v.Pkg() {
+				pkg = p
+			}
+		}
+		if pkg == nil {
+			return nil, false
+		}
+		for _, f := range pkg.Syntax {
+			for _, d := range f.Decls {
+				fd, isFn := d.(*ast.FuncDecl)
+				if !isFn || fd.Body == nil {
+					continue
+				}
+				inInit := fd.Recv == nil && fd.Name.Name == "init"
+				ast.Inspect(fd.Body, func(n ast.Node) bool {
+					switch x := n.(type) {
+					case *ast.AssignStmt:
+						for i, l := range x.Lhs {
+							if c.isObj(l, obj) {
+								okAll = false // the whole table is replaced
+							}
+							ix, isIx := stripParens(l).(*ast.IndexExpr)
+							if !isIx || !c.isObj(ix.X, obj) {
+								continue
+							}
+							k := c.constOf(ix.Index)
+							if !inInit || k == nil || x.Tok != token.ASSIGN || len(x.Lhs) != len(x.Rhs) {
+								okAll = false
+								continue
+							}
+							ents = append(ents, funcTableEntry{k, x.Rhs[i]})
+						}
+					case *ast.UnaryExpr:
+						if x.Op == token.AND {
+							if c.isObj(x.X, obj) {
+								okAll = false
+							}
+							if ix, isIx := stripParens(x.X).(*ast.IndexExpr); isIx && c.isObj(ix.X, obj) {
+								okAll = false
+							}
+						}
+					}
+					return true
+				})
+			}
+		}
+		if !okAll || len(ents) == 0 {
+			return nil, false
+		}
+		// the same index twice: the later assignment wins; keep it simple and refuse
+		seen := map[string]bool{}
+		for _, en := range ents {
+			if seen[en.k.ExactString()] {
+				return nil, false
+			}
+			seen[en.k.ExactString()] = true
+		}
+	}
+	if len(ents) == 0 {
+		return nil, false
+	}
+	c.memoTab[key] = ents
+	return ents, true
 }
